@@ -20,7 +20,7 @@ ASSUMPTIONS = ["the stdlib of the running interpreter (3.12) is the reference",
                "batched(strict=True) reference = itertools.batched + ValueError on a short batch (3.13 semantics)"]
 EXHAUSTIVE = {"quick": False, "thorough": False}
 
-N_RANDOM = {"quick": 40000, "thorough": 1500000}
+N_RANDOM = {"quick": 150000, "thorough": 8000000}
 FLAVS = ["list", "list", "async_gen", "async_class", "sync_iter", "tuple", "getitem_seq", "sync_gen"]
 
 
